@@ -171,8 +171,8 @@ impl<T: Float + 'static> DynView<T> for WWo<T> {
     }
 }
 
-struct WWr<T: Float>(WelfordRolling<T, Dyn<T>>);
-impl<T: Float + 'static> DynView<T> for WWr<T> {
+struct WWr<T: Float, V: View<T> + Clone = Dyn<T>>(WelfordRolling<T, V>);
+impl<T: Float + 'static, V: View<T> + Clone + 'static> DynView<T> for WWr<T, V> {
     fn update(&mut self, v: T) {
         self.0.update(v)
     }
@@ -207,6 +207,10 @@ impl<T: Float> View<T> for Probe<T> {
 
 fn dynw<T: Float + 'static, V: View<T> + Clone + 'static>(v: V) -> Dyn<T> {
     Dyn(Box::new(W(v)))
+}
+
+fn is_echo(sx: &SX) -> bool {
+    matches!(sx, SX::List(v) if v.len() == 1 && matches!(&v[0], SX::Atom(s) if s == "echo"))
 }
 
 fn atom(sx: &SX) -> Result<&str, String> {
@@ -285,6 +289,13 @@ fn build<T: Scalar>(sx: &SX) -> Result<(Dyn<T>, bool), String> {
                 ("drawdown", 0) => dynw(Drawdown::new(x)),
                 ("lnret", 0) => dynw(LnReturn::new(x)),
                 ("wroll", 0) => Dyn(Box::new(WWr(WelfordRolling::new(x)))),
+                // the `Default` impls (over `Echo`) — used when the inner expression is the bare `(echo)`
+                ("drawdown_d", 0) if is_echo(&a[0]) => dynw(Drawdown::<T, Echo<T>>::default()),
+                ("lnret_d", 0) if is_echo(&a[0]) => dynw(LnReturn::<T, Echo<T>>::default()),
+                ("wroll_d", 0) if is_echo(&a[0]) => Dyn(Box::new(WWr(WelfordRolling::<T, Echo<T>>::default()))),
+                ("drawdown_d", 0) => dynw(Drawdown::new(x)),
+                ("lnret_d", 0) => dynw(LnReturn::new(x)),
+                ("wroll_d", 0) => Dyn(Box::new(WWr(WelfordRolling::new(x)))),
                 ("sma", 1) => dynw(Sma::new(x, usz(&p[0])?)),
                 ("ema", 1) => dynw(Ema::new(x, usz(&p[0])?)),
                 ("emaa", 2) => dynw(Ema::with_alpha(x, usz(&p[0])?, sc::<T>(&p[1])?)),
